@@ -798,6 +798,57 @@ func checkC15e2e(h *History, vs []*opView) {
 		}
 		bySubnet[sn] = append(bySubnet[sn], ev{v.o.SentAt, admitted, v})
 	}
+	// twins: the first was refused every time it asked before phase 3 (the
+	// shared budget was exhausted then), the second did not ask at all - neither
+	// has had anything admitted, so from phase 3 on, asking the same listener the
+	// same questions at the same time, they fare alike
+	for _, tw := range rp.Limiter.Twins {
+		a1, a2, n1, n2 := 0, 0, 0, 0
+		ok := true
+		for _, v := range vs {
+			if v.q == nil || !v.srcSeen.IsValid() {
+				continue
+			}
+			adm, ref := false, false
+			for i := range v.o.Resps {
+				if v.resps[i] != nil && v.resps[i].Rcode() == 5 {
+					ref = true
+				} else if v.resps[i] != nil {
+					adm = true
+				}
+			}
+			early := v.o.SentAt < us(tw.Phase3Us)-time.Millisecond
+			switch v.cc.Src {
+			case tw.V1:
+				if early {
+					if !ref || adm {
+						ok = false // something was admitted (or lost) earlier: the twins differ legitimately
+					}
+				} else {
+					n1++
+					if adm {
+						a1++
+					}
+				}
+			case tw.V2:
+				if early {
+					ok = false
+				} else {
+					n2++
+					if adm {
+						a2++
+					}
+				}
+			}
+		}
+		h.S.Logf("c15_twins", "comparable=%v first: %d asked %d admitted, second: %d asked %d admitted", ok, n1, a1, n2, a2)
+		if ok && n1 == n2 && n1 > 0 {
+			h.S.Probe("c15_twins_checked")
+			if a1 != a2 {
+				h.S.Fail("C15", "twin-subnets-differ", "subnets of %s and %s asked %d questions each at the same times from %v on and neither had had anything admitted before (the first had only been refused while other subnets had exhausted the global limit), yet %d and %d were admitted: refusals caused by others' traffic were charged to the first one's budget", tw.V1, tw.V2, n1, us(tw.Phase3Us), a1, a2)
+			}
+		}
+	}
 	// the window is measured at the clients; admission happens one latency (for
 	// stream and QUIC listeners up to a few round trips of connection set-up
 	// and flow control) and possibly an injected stall later
